@@ -246,6 +246,9 @@ def run_bv(tu, unit, workdir):
     t0 = time.time()
     try:
         tu = get_tu(tu, getattr(unit, "tu_variant", None), workdir)
+        if getattr(unit, "optional", False) and not (unit.target in tu.by_qname and tu.by_qname[unit.target].body is not None):
+            # an instance the working tree does not instantiate: nothing to prove
+            return dict(unit=unit, status="pass", reason="not instantiated in this tree", obligations=0, discharged=0, failed=[], wall_s=0.0, log="", canary=None)
         cfile, wname, repl, em = build_bv(tu, unit, workdir)
     except ExtractionError as e:
         return dict(unit=unit, status="undecided", reason="extraction: %s" % e, obligations=0, discharged=0, failed=[], wall_s=time.time() - t0, log=str(e))
